@@ -6,6 +6,7 @@ mod alloc_track;
 mod apidiff;
 mod ops;
 mod panicapi;
+mod weakraw;
 
 use std::io::{Read, Write};
 use std::sync::atomic::Ordering::Relaxed;
@@ -224,6 +225,10 @@ mod stdrc {
 fn main() {
     let args: Vec<String> = std::env::args().collect();
     let mode = args.get(1).map(String::as_str).unwrap_or("cactus");
+    if mode == "weakraw" {
+        alloc_track::TRACK.store(false, Relaxed);
+        std::process::exit(weakraw::main());
+    }
     if mode == "panicapi" {
         alloc_track::TRACK.store(false, Relaxed);
         std::process::exit(panicapi::main());
@@ -252,7 +257,7 @@ fn main() {
             }
         }
     }
-    if mode != "cactus" && mode != "std" && mode != "bigring" && mode != "apidiff" && mode != "panicapi" {
+    if mode != "cactus" && mode != "std" && mode != "bigring" && mode != "apidiff" && mode != "panicapi" && mode != "weakraw" {
         eprintln!("unknown mode {}", mode);
         std::process::exit(2);
     }
